@@ -258,10 +258,10 @@ Theorem C10_compact_oldest_first : forall h c h', compact_okb h c h' = true -> f
 Proof. exact compact_oldest_first. Qed.
 Print Assumptions C10_compact_oldest_first.
 
-(* the deterministic model function is one of the admitted results *)
-Theorem C10_compact_function_admitted : forall h c, NoDup (keys (pv h)) -> compact_okb h c (compact_with_value h c) = true.
+(* the deterministic model function is one of the allowed results *)
+Theorem C10_compact_function_allowed : forall h c, NoDup (keys (pv h)) -> compact_okb h c (compact_with_value h c) = true.
 Proof. exact compact_fun_ok. Qed.
-Print Assumptions C10_compact_function_admitted.
+Print Assumptions C10_compact_function_allowed.
 
 (* COMPACTION IS SOUND: pruning previous versions of the local vector, of the incoming one or of both never
    turns a pair in conflict into an accepted (or already known) one ... *)
